@@ -1,16 +1,22 @@
 #!/bin/bash
 # usage: tools/confirm_seed.sh <prop> <n>
-# confirms a sub-agent's seeded change in ITS OWN scratch worktree copy (never in /repo):
-#   demo fails with the patch, passes without, pinned suite (serial) still 213/213 with the patch.
-# A private copy of the worktree is made so several confirmations can run in parallel.
-p=$1; n=$2; src=/tmp/wt/$p/_seed/$n; w=/tmp/wt/confirm-$p-$n
-rm -rf $w; git -C /repo worktree add -q --detach $w HEAD || exit 3
+# confirms a sub-agent's seeded change in scratch worktrees (never in /repo):
+#   demo passes on the clean tree and fails with the patch (run in the agent's own worktree, under a lock,
+#   because some demos assert where mystic was imported from); pinned suite (serial) still 213/213 with the
+#   patch, run in a private worktree so several confirmations can proceed in parallel.
+p=$1; n=$2; o=/tmp/wt/$p; src=$o/_seed/$n; w=/tmp/wt/confirm-$p-$n
 out=/tmp/wt/logs/confirm-$p-$n.txt; mkdir -p /tmp/wt/logs; : > $out
-cd $w
-PYTHONPATH=$w timeout 300 /venv/bin/python $src/demo.py > /tmp/wt/logs/confirm-$p-$n.clean.out 2>&1; echo "demo_clean_exit=$?" >> $out
-git apply $src/patch.diff || { echo "apply_failed=1" >> $out; }
-PYTHONPATH=$w /venv/bin/python -c "import mystic, mystic.solvers" >> $out 2>&1; echo "import_exit=$?" >> $out
-PYTHONPATH=$w timeout 300 /venv/bin/python $src/demo.py > /tmp/wt/logs/confirm-$p-$n.patched.out 2>&1; echo "demo_patched_exit=$?" >> $out
+(
+ flock 9
+ cd $o && git checkout -q -- . 
+ PYTHONPATH=$o timeout 600 /venv/bin/python $src/demo.py > /tmp/wt/logs/confirm-$p-$n.clean.out 2>&1; echo "demo_clean_exit=$?" >> $out
+ git apply $src/patch.diff || echo "apply_failed=1" >> $out
+ PYTHONPATH=$o /venv/bin/python -c "import mystic, mystic.solvers" >> $out 2>&1; echo "import_exit=$?" >> $out
+ PYTHONPATH=$o timeout 600 /venv/bin/python $src/demo.py > /tmp/wt/logs/confirm-$p-$n.patched.out 2>&1; echo "demo_patched_exit=$?" >> $out
+ git checkout -q -- .
+) 9> /tmp/wt/$p.lock
+rm -rf $w; git -C /repo worktree add -q --detach $w HEAD || exit 3
+cd $w && git apply $src/patch.diff
 /tmp/wt/run_baseline.sh $w >> $out 2>&1
 cd /; git -C /repo worktree remove --force $w
 cat $out
